@@ -20,7 +20,7 @@ use push::{
 };
 use serde_json::{json, Value};
 
-use crate::fixtures::{Bare, Odd, Solo, Twin, Wide};
+use crate::fixtures::{Bare, Crossed, Extra, Odd, Solo, Twin, Wide};
 
 pub trait Show {
     fn show(&self) -> String;
@@ -381,7 +381,45 @@ fn accessors() {
     report("accessors", ok, json!({"push_state": obs_push_state(&st, &[])}));
 }
 
+/// Builder names that are each other's field names: every `with_<name>_*` method must act on the
+/// field that *declares* that builder name.
+fn crossed_builder_names() {
+    let built = Crossed::builder()
+        .with_max_stack_size(9)
+        .with_locals_max_size(2)
+        .with_globals_max_size(5)
+        .with_locals_values(vec![1i64, 2])
+        .and_then(|b| b.with_globals_values(vec![10i64, 20, 30, 40]))
+        .map(|b| b.with_no_program().build());
+    let ok = match &built {
+        Ok(st) => dump(&st.globals) == dump_of(&[1, 2], 2) && dump(&st.locals) == dump_of(&[10, 20, 30, 40], 5),
+        Err(_) => false,
+    };
+    // three values exceed the limit of 2 set through the `locals` builder name only
+    let over = Crossed::builder().with_max_stack_size(9).with_locals_max_size(2).with_globals_max_size(5).with_locals_values(vec![1i64, 2, 3]).map(|_| ()).map_err(|e| err_name(&e));
+    let fits = Crossed::builder().with_max_stack_size(9).with_locals_max_size(2).with_globals_max_size(5).with_globals_values(vec![1i64, 2, 3]).map(|_| ()).map_err(|e| err_name(&e));
+    let ok = ok && over == Err("Overflow") && fits == Ok(());
+    report("crossed-builder-names", ok, json!({"built": built.as_ref().map(|st| json!({"field globals (builder name locals)": dump(&st.globals), "field locals (builder name globals)": dump(&st.locals)})).map_err(|e| err_name(e)),
+        "three values through with_locals_values (limit 2)": format!("{over:?}"), "three values through with_globals_values (limit 5)": format!("{fits:?}")}));
+}
+
+fn dump_of(values_top_first: &[i64], max: usize) -> Value {
+    let mut s: Stack<i64> = Stack::default();
+    s.set_max_stack_size(max);
+    let _ = s.push_many(values_top_first.to_vec());
+    dump(&s)
+}
+
+/// Fields the macro knows nothing about keep the values the struct's own `Default` gives them.
+fn extra_fields_preserved() {
+    let st = Extra::builder().with_max_stack_size(4).with_nums_values(vec![7i64]).map(|b| b.with_program(vec![1u8, 2]).map(|b| b.with_instruction_step_limit(9).build()));
+    let ok = matches!(&st, Ok(Ok(s)) if s.fuel == 1000 && s.label == "fresh" && s.lim == 9 && s.nums.size() == 1 && s.exec.size() == 2);
+    report("extra-fields-preserved", ok, json!({"built": format!("{st:?}").chars().take(400).collect::<String>(), "expected": "fuel = 1000, label = \"fresh\" (the struct's own Default), lim = 9"}));
+}
+
 pub fn static_checks() {
+    crossed_builder_names();
+    extra_fields_preserved();
     inputs_any_order();
     program_order_by_running();
     overflow_boundary();
